@@ -357,7 +357,6 @@ def shapes(tier: str, pid: str):
             if not q:
                 A((kind, {"n": 2, key: 3, "lab": 0, "links": 0}))
                 A((kind, {"n": 3, key: 3, "lab": 0, "links": 0}))
-                A((kind, {"n": 6, key: 2, "lab": 0, "links": 0}))
             # a frame whose deciding component is +-inf is stored as a gap: the run table,
             # the data section and the decoder must agree on that too
             for n in ([2, 3] if q else [1, 2, 3, 4, 5]):
